@@ -875,7 +875,20 @@ def registry(ctx):
     arm = None
     for n in g.node.body:
         if isinstance(n, ast.If) and 'x_fields' in unparse(n.test):
-            arm = n.body
+            # the table arm is the one taken when ALL x fields are zero
+            t_ = unparse(n.test).replace(' ', '')
+            if t_ == 'np.all(self.x_fields==0)':
+                arm = n.body
+            elif t_ in ('np.any(self.x_fields!=0)',
+                        'notnp.all(self.x_fields==0)'):
+                arm = n.orelse
+            else:
+                res.fail(ctx.finding(
+                    'VIG-INTERP', g, n,
+                    f'the rotationally symmetric branch is selected by '
+                    f'{unparse(n.test)}, not by "all x fields are zero"',
+                    construct='vig symmetric branch condition'))
+                arm = n.body
     if arm is None:
         raise AnalysisError('get_vig_factor: symmetric arm not found')
     defs = {}
@@ -925,7 +938,16 @@ def registry(ctx):
                 ok_guard = True
             elif isinstance(guard.test, ast.Compare) and \
                     inl(guard.test.left) == inl(v.right) and \
-                    unparse(guard.test.comparators[0]) in ('0', '0.0'):
+                    unparse(guard.test.comparators[0]) in ('0', '0.0') and (
+                        (isinstance(guard.test.ops[0], ast.Eq) and
+                         any(v is x_.value for x_ in ast.walk(ast.Module(
+                             body=guard.orelse, type_ignores=[]))
+                             if isinstance(x_, ast.Assign))) or
+                        (isinstance(guard.test.ops[0], ast.NotEq) and
+                         any(v is x_.value for x_ in ast.walk(ast.Module(
+                             body=guard.body, type_ignores=[]))
+                             if isinstance(x_, ast.Assign)))):
+                # the division sits in the arm where the maximum is not zero
                 ok_guard = True
     checks = [
         (ok_sort, 'fields sorted by their magnitude |y| (the table is a '
